@@ -816,7 +816,7 @@ fn apply_defect(rng: &mut Rng, p: &GenParams, b: &mut ABundle) {
             let v = lock_small(rng, w);
             let delta = rng.below(3);
             b.spends[i].conds.push(cond(&[a], &[int_atom(v)]));
-            b.spends[i].conds.push(cond(&[bf], &[int_atom((v + delta).saturating_sub(1))]));
+            b.spends[i].conds.push(cond(&[bf], &[int_atom(v.saturating_add(delta).saturating_sub(1))]));
             tag = "lock-conflict".into();
         }
         13 if ns > 0 => {
